@@ -471,6 +471,10 @@ func fullFile(override map[string]interface{}) map[string]interface{} {
 	return file
 }
 
+// fileEnv: when set, loadFile applies this environment variable through the Manager (Manager.ApplyEnvVars after
+// Manager.LoadJSON, or Manager.LoadJSONFileAndEnv when the file is on disk); the reload of the saved form runs without it
+var fileEnv *struct{ name, val string }
+
 // reloadBase: base directory given to the fresh object that re-loads a saved configuration ("" = none)
 var reloadBase string
 
@@ -492,9 +496,21 @@ func loadFile(raw []byte, s *section, f *common.C15Field, at string) obs {
 			o.res = "infra"
 			return o
 		}
-		o.res = guard(func() error { return m.LoadJSONFromFile(at) })
+		if fileEnv != nil {
+			// the daemon's loader: file, then environment, in one call
+			os.Setenv(fileEnv.name, fileEnv.val)
+			o.res = guard(func() error { return m.LoadJSONFileAndEnv(at) })
+			os.Unsetenv(fileEnv.name)
+		} else {
+			o.res = guard(func() error { return m.LoadJSONFromFile(at) })
+		}
 	} else {
 		o.res = guard(func() error { return m.LoadJSON(raw) })
+		if fileEnv != nil && o.res == "ok" {
+			os.Setenv(fileEnv.name, fileEnv.val)
+			o.res = guard(m.ApplyEnvVars)
+			os.Unsetenv(fileEnv.name)
+		}
 	}
 	o.eff, o.eff2, o.gotTok = "-", "-", "-"
 	if o.res != "ok" {
@@ -978,6 +994,55 @@ func runSet(c setCase) {
 		if o.res == "ok" {
 			after(s, obj, f, &o)
 		}
+	case "menv", "menvfile":
+		// the same through config.Manager with all 14 sections registered: `menv` = Manager.LoadJSON of the
+		// default file, then Manager.ApplyEnvVars; `menvfile` = the file (holding another accepted value of the
+		// field when one is known) written to disk, then Manager.LoadJSONFileAndEnv
+		if s.def.typ < 0 {
+			return
+		}
+		ev, ok := envString(v)
+		if !ok {
+			return
+		}
+		if sv, isStr := v.(string); isStr && f.Ty == "list" {
+			want = tok(f, []interface{}{sv})
+		}
+		if ev == "" && c.vc != "mal" {
+			c.vc = "unset"
+		}
+		if c.mode == "menvfile" {
+			if alt = altValue(s, f); alt != "" {
+				av, _ := decodeAny(alt)
+				setPath(m, f.Path, av)
+			}
+		}
+		raw := []byte(compact(fullFile(map[string]interface{}{s.def.name: m})))
+		m0, comps0 := newManager()
+		r0 := guard(func() error { return m0.LoadJSON(raw) })
+		if r0 == "ok" {
+			cur = rowEff(comps0[s.def.name], f)
+		}
+		m0.Shutdown()
+		if r0 != "ok" {
+			return
+		}
+		at := ""
+		if c.mode == "menvfile" {
+			dir, ok := baseDir(true)
+			if !ok {
+				out.Line("# inconclusive base directory under VERIF_SCRATCH could not be prepared")
+				return
+			}
+			at = filepath.Join(dir, "service-env.json")
+		}
+		fileEnv = &struct{ name, val string }{f.EnvName(s.schema.EnvPrefix), ev}
+		o = loadFile(raw, s, f, at)
+		fileEnv = nil
+		if o.res == "infra" {
+			out.Line("# inconclusive configuration file could not be written under VERIF_SCRATCH")
+			return
+		}
 	case "basealone-abs", "basealone-rel", "basefile-abs", "basefile-rel":
 		dir, ok := baseDir(strings.HasSuffix(c.mode, "-abs"))
 		if !ok {
@@ -1346,6 +1411,10 @@ func tlsCases() {
 
 // boundary enumerates the fixed value pools in every mode (independent of -n and of the seed).
 func boundary(suite string, tier string) {
+	if suite == "ident" {
+		identBoundary(tier)
+		return
+	}
 	if suite == "src" {
 		srcBoundary(tier)
 		return
@@ -1440,6 +1509,27 @@ func boundary(suite string, tier string) {
 				}
 			}
 		}
+		// through config.Manager: per field the first two well-formed, the first zero and the first malformed pool value
+		for _, fr := range fields {
+			seen := map[string]int{}
+			for _, p := range pool(fr.f) {
+				if p.vc == "unset" {
+					continue
+				}
+				lim := 1
+				if p.vc == "wf" {
+					lim = 2
+				}
+				if seen[p.vc] >= lim {
+					continue
+				}
+				seen[p.vc]++
+				runSet(setCase{"menv", fr.s, fr.f, p.json, p.vc, "-"})
+				if p.vc != "mal" {
+					runSet(setCase{"menvfile", fr.s, fr.f, p.json, p.vc, "-"})
+				}
+			}
+		}
 	}
 }
 
@@ -1467,6 +1557,10 @@ func mangle(b []byte, r *common.Rng) string {
 }
 
 func random(suite string, k int) {
+	if suite == "ident" {
+		identRandom(k)
+		return
+	}
 	if suite == "src" {
 		srcRandom(k)
 		return
@@ -1509,7 +1603,8 @@ func random(suite string, k int) {
 	case "file":
 		mode = "file"
 	case "env":
-		mode = []string{"env", "envalt"}[r.Intn(2)]
+		// 1 in 6 through config.Manager (those cases cost ~10x a section case)
+		mode = []string{"env", "envalt", "env", "envalt", "env", "envalt", "env", "envalt", "env", "envalt", "menv", "menvfile"}[r.Intn(12)]
 	}
 	runSet(setCase{mode, fr.s, fr.f, p.json, p.vc, noise})
 }
@@ -1532,6 +1627,26 @@ func replay(line string) {
 		return
 	}
 	switch w[0] {
+	case "ident":
+		if ops := kv(w, "ops"); ops != "" {
+			runIdent(strings.Split(ops, ","))
+		}
+	case "disp":
+		runDisp(w[1])
+	case "rlib":
+		runRlib(kv(w, "id"), kv(w, "key"), kv(w, "addr"))
+	case "sind":
+		runSind(w[1], kv(w, "src"), kv(w, "dest"))
+	case "pdur":
+		var cur []int64
+		for _, c := range strings.Split(kv(w, "cur"), ",") {
+			n, err := strconv.ParseInt(c, 10, 64)
+			if err != nil {
+				return
+			}
+			cur = append(cur, n)
+		}
+		runPdur(strings.Split(kv(w, "args"), ","), cur)
 	case "mgr":
 		runMgr(w[1])
 	case "val":
